@@ -22,10 +22,10 @@ class mesh_to_mesh(SpaceTransfer):
         Args:
             F: the fine level data (easier to access than via the fine attribute)
         """
-        if isinstance(F, mesh):
-            G = mesh(F)
-        elif isinstance(F, imex_mesh):
+        if isinstance(F, imex_mesh):
             G = imex_mesh(F)
+        elif isinstance(F, mesh):
+            G = mesh(F)
         else:
             raise TransferError('Unknown data type, got %s' % type(F))
         return G
@@ -37,10 +37,10 @@ class mesh_to_mesh(SpaceTransfer):
         Args:
             G: the coarse level data (easier to access than via the coarse attribute)
         """
-        if isinstance(G, mesh):
-            F = mesh(G)
-        elif isinstance(G, imex_mesh):
+        if isinstance(G, imex_mesh):
             F = imex_mesh(G)
+        elif isinstance(G, mesh):
+            F = mesh(G)
         else:
             raise TransferError('Unknown data type, got %s' % type(G))
         return F
